@@ -176,6 +176,12 @@ func main() {
 			bound = n
 		}
 	}
+	only := -1
+	if len(os.Args) > 2 {
+		if n, err := strconv.Atoi(os.Args[2]); err == nil {
+			only = n
+		}
+	}
 	enc := json.NewEncoder(os.Stdout)
 	scripts := []struct {
 		name, src string
@@ -187,8 +193,11 @@ func main() {
 		{"empty", "", false, true},
 		{"spin, optimizer on", "for {}", true, false},
 	}
-	for _, s := range scripts {
+	for si, s := range scripts {
 		s := s
+		if only >= 0 && si != only {
+			continue
+		}
 		noOptimize = s.noopt
 		body := func() {
 			ctx := &hctx{done: make(chan struct{})}
